@@ -123,6 +123,8 @@ DIRECT = {
     "smooth-falling": ("smooth", B_, ("num", 2.0), ("lit", "i0")),
     "trend": ("trend", A_, ("lit", "T"), ("lit", "i0")),
     "nested": B("sub", A_, B("sub", B_, B("mul", ("num", 2.0), A_))),
+    "neg-literal": ("num", -2.0),                     # an equation that is a plain negative number (a flow clamps it, too)
+    "pos-literal": ("num", 1.5),
 }
 
 
